@@ -5,7 +5,7 @@ import xmlcanon
 
 RULE = ('bounded-exhaustive: 4 shapes x 36 per-axis constraint pairs x longhand/shorthand spellings x separators x random boxes; '
         'hook cases (Position::to_bbox, resolve_position) compared bit-exactly with the extracted Coq model on binary32; '
-        'document cases checked by the direct oracle (all spellings of one box give identical native attributes). '
+        'document cases checked by the direct oracle (all spellings of one box give identical native attributes; lines running backwards on one or both axes in every start / end / centre pairing). '
         'non-trivial = distinct case whose constraint pair is not the native pair of the shape')
 THEOREM_NOTES = 'Props/C11.v: extent_any_sufficient_pair, to_bbox_any_pair (rect/ellipse/line), to_bbox_circle, shorthand_equiv, native_only'
 ASSUMPTIONS = ['identical geometry is proved in exact arithmetic (QOps); on binary32 the oracle uses dyadic coordinates so that f32 is exact',
@@ -208,6 +208,25 @@ def run(ctx):
         xml = '<svg>' + ''.join(els) + '</svg>'
         docs.append((doc_case('w%d' % di, xml, {'add_auto_styles': False}), 'rect', (x1, y1, x2 + dw, y2 + dh), spell))
         dist['doc_with_dwh'] = dist.get('doc_with_dwh', 0) + 1
+    # lines that run backwards on one or both axes (start beyond the end): only start / end / centre can say so
+    for di in range(ndoc // 2):
+        x1, y1, x2, y2 = gen_box(rng, dyadic=True)
+        flip = rng.choice(['x', 'y', 'xy'])
+        if 'x' in flip: x1, x2 = x2, x1
+        if 'y' in flip: y1, y2 = y2, y1
+        els = []; spell = []
+        sem = [p_ for p_ in PAIRS if 'l' not in p_]
+        for px in sem:
+            for py in sem:
+                attrs = [axis_attrs('line', 'x', q, x1, x2, rng) for q in px] + [axis_attrs('line', 'y', q, y1, y2, rng) for q in py]
+                if rng.chance(0.5):
+                    attrs = shorthand(attrs, rng)
+                else:
+                    rng.shuffle(attrs)
+                els.append(xmlcanon.el('line', attrs)); spell.append(attrs)
+        xml = '<svg>' + ''.join(els) + '</svg>'
+        docs.append((doc_case('b%d' % di, xml, {'add_auto_styles': False}), 'line', (x1, y1, x2, y2), spell))
+        dist['doc_backward_line'] = dist.get('doc_backward_line', 0) + 1
     dres = lib.run_impl([d[0] for d in docs])
     for c, shape, box, spell in docs:
         st['evaluations'] += 1; st['distinct_nontrivial'] += 1
